@@ -71,12 +71,17 @@ func (r *Reader) Read() (seq.Sequence, error) {
 	for {
 		var err error
 		if buff, isPrefix, err = r.r.ReadLine(); err != nil {
-			if err != io.EOF || r.working == nil {
-				return nil, err
+			if err != io.EOF || len(line) == 0 {
+				if err != io.EOF || r.working == nil {
+					return nil, err
+				}
+				s, err = r.working, r.err
+				r.working = nil
+				return s, err
 			}
-			s, err = r.working, r.err
-			r.working = nil
-			return s, err
+			// The input ended inside an unterminated line that had
+			// filled the buffer: what was read so far is the final
+			// line (ReadLine returns no data with an error).
 		}
 		line = append(line, buff...)
 		if isPrefix {
